@@ -12,6 +12,23 @@ CLAIMED = {
          "Trusted: as C09, plus sequence-theory facts about cat/slice and the determinism argument that lets scanOf(source) name Scan's result. The piece-in-isolation (locality) clause and the Parse correspondence are listed as undecided."),
  "C11": ("Walk is proved, for every tree satisfying the parser's well-formedness (walkWF) and for an arbitrary visitor vis(history,node), to call the visitor with exactly the pre-order sequence Pre(n) that is generated from the traversal table of all node types (explicit-stack loop invariant PreS(stack,trace)==Pre(root), eleven inner push-loop invariants), never with a nil node (pre/visit), never reaching the panic in the default branch, and to terminate (stackSize measure). The table is cross-checked against go/types on every run so a new node-typed field cannot be skipped silently.",
          "Trusted: go/ssa lowering, govc, solvers; walkWF of the input tree is a precondition (owed by the parser); sibling order is fixed to the documented depth-first order. Two genuine defects found by these obligations (ParenExpr panic, nil Name of an unnamed extend column) were repaired by fix: commits."),
+
+ "C01": ("The three expression writers, the ten built-in rewrites and the two quoting loops are proved, for every well-formed expression tree, scope and mode, to emit exactly the text the rendering specification W (Appendix A: same operators, same operands, same order; coalesce for ==/!=, lower() for =~/!~, IN, indexing, signs, documented built-ins, other calls passed through; parentheses stripped and re-inserted) prescribes: strongest postcondition out(sb)==W(...) on every success path, loop invariants in continuation form, structural recursion with a height measure (so parentheses cannot affect termination).",
+         "W is the oracle (written from the property statement); that W's parenthesisation is valid under the dialect's precedence is argued in DESIGN.md and was repaired where refuted (F5-F7), but is not yet a discharged lemma. Trusted: go/ssa, govc, solvers, hasJoinTerms contract, sync.Once."),
+ "C02": ("splitQueries is proved equal to the plan specification Split (Appendix B) by a continuation-form loop invariant over the heap view of the subquery objects (when ORDER BY / LIMIT attach, when a new subquery starts, top = sort+take on one subquery, chaining through the previous subquery or the table, fresh pairwise-distinct objects, callers' objects untouched), and (*subquery).write is proved equal to the SELECT text specification WS (clause order SELECT..FROM..WHERE..GROUP BY..ORDER BY..LIMIT, columns in order with aliases, group keys before aggregates, ASC/DESC and NULLS FIRST/LAST from the term flags).",
+         "Split/WS are the oracle; the relational reading of the emitted SQL (dialect clause order) is assumption A7(ii), not proved. sortTerm defaults are parser facts (not yet under contract)."),
+ "C03": ("The join case of Split is part of the splitQueries proof: the right-hand pipeline is the recursive call on op.Right with its own chain start (proved via the callee's contract, height measure), the join source text equals joinSrc (DISTINCT wrapper iff innerunique/default, LEFT JOIN iff leftouter, left side = pipeline so far or the table, right side = last subquery of the right plan, ON = W in join mode of the AND-ed, rewritten conditions); buildJoinCondition / rewriteSimpleJoinCondition are proved equal to JoinCond / rewriteCond (bare k => $left.k == $right.k).",
+         "Oracle: joinSrc/JoinCond. hasJoinTerms is an assumed contract. Relational meaning of JOIN is the dialect's (A7)."),
+ "C04": ("quoteIdentifier and quoteSQLString are proved equal to the escaping specification EscQ (double every quote character, wrap in quotes) by loop invariants; every writer is proved equal to an oracle (W, WS, joinSrc, StmtOut) in which user text occurs only as QI(name), QS(value), number text or a scope value, so the token structure of the output is a function of the tree shape alone. The render operator, which wrote raw text (F8), was repaired after the obligation failed.",
+         "The dialect-side decoding lemma (incl. ClickHouse backslash escapes) is not discharged; lexer-side value clauses are under C09."),
+ "C05": ("Compile is proved to emit exactly Out.str(StmtOut(plan)) = [WITH n1 AS (S1), ...] Sk ; with plan = Split(operators): CTE loop invariant, last subquery as the final select, generated names sqn(index) (injective), every subquery reads the previous one of its pipeline or the table, at least one subquery; all internal placeholder branches (NULL /* unhandled ... */) are proved unreachable for well-formed trees (explicit unreachable obligations).",
+         "StmtOut is the oracle; lexical closure/bracket balance of the text are not separate lemmas. Parse's well-formedness post is assumed."),
+ "C06": ("Compile's statement loop is proved to build exactly the scope SD/SV: parameters first (copy loop over the map, caller's map untouched), then every let written before the query in order (later shadows earlier and parameters), lets after the query ignored; each let value is Out.str(WMP(...)) evaluated in let mode in the scope so far; the scope reaches every expression context, including join conditions (F10, repaired); identifier resolution (unquoted single name -> scope, then built-in constants; quoted/qualified never substituted) is part of W.",
+         "SD/SV/W are the oracle. The sign-adjacency clause for let values and the irrelevance lemma are undecided."),
+ "C12": ("All safety obligations (index and slice bounds, nil dereference, failed type assertion, reachable panic, division, nil-map write), all loop variants and recursion measures, all frame conditions and vacuity guards of every function under contract in the lexer, the span functions, Walk and the compiler are discharged for all inputs.",
+         "Functions not yet under contract (parser productions, hasJoinTerms, cmd/pql) are listed in the evidence; Parse's post is an assumption. No cost model: termination only."),
+ "C13": ("Compile is proved to return (non-empty text, nil) or (\"\", non-nil error) on every path (typed-nil traps included: errors are datatype values); each built-in rewrite is proved to fail whenever the documented argument count is violated; $left/$right outside join mode and the let-mode identifier rules are part of the verified writeExpression (errors on those paths, W on the others).",
+         "The converse (every rule-abiding program compiles) and the parser-side rules are undecided (listed in evidence)."),
 }
 NOT_YET = {}
 props = [json.loads(l) for l in open('/verif/properties.jsonl')]
